@@ -18,6 +18,12 @@
    - memory layout / overload dispatch of the Python binding: a float64 argument that is not C-contiguous is computed by the
      float32 kernel (the theorems are about the kernels as functions of the array CONTENTS; the shards steer around that region);
    - arrays whose last axis is not 3: a point is a `vec` (exactly three coordinates) by typing, as the template argument ND = 3.
+   Large grids and argument objects: the models are functions of the argument VALUES, defined point by point.  The harness
+   therefore (a) calls every function with the same argument objects repeatedly / as views / with one object as both corners
+   and compares every call with the model at the values the caller passed (arguments must come back unchanged), and (b) for
+   grids too large for a literal compares a sample of positions inside Coq (CGridAt, sub-sampled CAso/CAif/CNearest/CPrune)
+   while the numpy oracle judges every point: C19_blocks_cover / C19_blockwise (any block-wise walk with step > 0 equals the
+   one-piece result; the partial last block counts), C19_sample, C19_grid_at, C19_grid_point_box.
    Boundary conventions: the model's nearest/prune use `<=` at the cut-off as the code's np.where does; scipy's
    distance_upper_bound is exclusive, so AT the cut-off the real code answers -1 / drops the point.  The acceptance tests
    (nearest_okb, prune_okb) accept both answers there, which is also what the property's rounding-band clause allows. *)
